@@ -333,13 +333,20 @@ theorem info_batched_rows [Subscript V] (c : Config) (L : InfoLearner σ V) (n :
   info_batched_rows' c L n first rest s s' calls rows h
 
 /-- environments whose interactions do not all have the first one's keys (1): `has_context`, `has_actions`, `has_action`,
-`has_reward`, `has_prob` are decided by the FIRST interaction; a reserved key the first interaction lacks is read as
+`has_reward` are decided by the FIRST interaction; a reserved key the first interaction lacks is read as
 `None` in every later interaction, whatever that interaction holds (and, being a reserved name, is not carried into the
 row either) -/
 theorem later_reserved_key_ignored {c : Config} {fl : Flags} {d : Dict (Fld V R)} {r : RowIn V R} (h : readRow c fl d = .ok r) :
     (fl.hasContext = false → r.ctx = none) ∧ (fl.hasActions = false → r.acts = none) ∧
-    (fl.hasAction = false → r.offAct = none) ∧ (fl.hasReward = false → r.offRwd = none) ∧ (fl.hasProb = false → r.offPr = none) :=
+    (fl.hasAction = false → r.offAct = none) ∧ (fl.hasReward = false → r.offRwd = none) :=
   readRow_ignores h
+
+/-- … except the logged probability, which (with fix C06-F8, `interaction.get('probability', None)`) is read from each
+interaction itself: its own value when it has one, `None` when it has none — whatever the first interaction had, in both
+directions (a later interaction without one no longer raises `KeyError`) -/
+theorem logged_probability_read_per_interaction {c : Config} {fl : Flags} {d : Dict (Fld V R)} {r : RowIn V R}
+    (h : readRow c fl d = .ok r) : getNumOpt "probability" (d.get? "probability") = .ok r.offPr :=
+  readRow_probability h
 
 /-- (2): a reserved key the first interaction has and a later one lacks stops the evaluation at that interaction
 (`KeyError` in the code; rows yielded before it are already out) — shown for 'context', the first key read -/
@@ -421,21 +428,19 @@ example : evaluate exCfg cexL none exEnv 0 =
   set_option synthInstance.maxSize 4000 in
   decide +kernel
 
-/-! (3): the homogeneity hypothesis of `off_policy_logged` (inside `Hyp`) is necessary -/
+/-! (3): a log whose first interaction carries no propensity while the second does.  Before fix C06-F8 `learn` received
+`None` for both (`has_prob` was read off the first interaction: the homogeneity hypothesis of `off_policy_logged` was
+necessary for the probability too); with the per-interaction read the logged 1/4 reaches `learn` although `wfEnv` fails -/
 def hetCfg : Config := { learn := .off, eval := .none, record := [] }
 def hetEnv : List (Dict (Fld Nat Unit)) :=
   [[("context", .val 1), ("action", .val 2), ("reward", .num 3)],
    [("context", .val 2), ("action", .val 3), ("reward", .num 4), ("probability", .num (1 / 4))]]
 
-/-- a log whose first interaction carries no propensity while the second does: the evaluation goes through and `learn`
-receives `None` as the second interaction's probability although that interaction logs 1/4 — `wfEnv` fails, and
-the conclusion of `off_policy_logged` fails with it (replayed on the real code: finding C06-F8) -/
-theorem off_policy_logged_needs_homogeneity_counterexample :
+theorem off_policy_probability_per_interaction_example :
     wfEnv hetEnv = false ∧ (hetEnv.map view).map (·.offPr) = [none, some (1 / 4)] ∧
     evaluate hetCfg cexL none hetEnv 0 =
-      .ok (20, [.learn (some 1) (some 2) (some 3) none [], .learn (some 2) (some 3) (some 4) none []], []) := by
+      .ok (20, [.learn (some 1) (some 2) (some 3) none [], .learn (some 2) (some 3) (some 4) (some (1 / 4)) []], []) := by
   set_option synthInstance.maxSize 4000 in
   decide +kernel
-
 
 end Coba.C06
